@@ -94,6 +94,7 @@ class ArchiveScanner:
 
     def scan(self, verbose):
         found = False
+        seen = set()
         try:
             self.__db.execute("BEGIN")
             for l1 in self.__archiver.listDir("."):
@@ -105,7 +106,18 @@ class ArchiveScanner:
                         m = self.__archiveSchema.fullmatch(l3)
                         if not m: continue
                         found = True
-                        self.__scan(os.path.join(l2, l3), verbose)
+                        seen.add(self.__scan(os.path.join(l2, l3), verbose))
+
+            # Forget artifacts (and their references) that vanished from
+            # the archive since the last scan.
+            for bid in self.getBuildIds():
+                if bid not in seen:
+                    self.__db.execute("DELETE FROM files WHERE bid=? AND arch=?",
+                        (bid, self.__archiveKey))
+            self.__db.execute("""\
+                DELETE FROM refs WHERE arch=? AND bid NOT IN (
+                    SELECT bid FROM files WHERE arch=?
+                )""", (self.__archiveKey, self.__archiveKey))
         except OSError as e:
             raise BobError("Error scanning archive: " + str(e))
         finally:
@@ -121,22 +133,24 @@ class ArchiveScanner:
             bidHex, sep, suffix = fileName.partition("-")
             bid = bytes.fromhex(bidHex[0:2] + bidHex[3:5] + bidHex[6:])
 
-            # Validate entry in caching db. Delete entry if stat has changed.
-            # The database will clean the 'refs' table automatically.
+            # Validate entry in caching db. Delete entry and its references if
+            # stat has changed.
             self.__db.execute("SELECT stat FROM files WHERE bid=? AND arch=?",
                                 (bid, self.__archiveKey))
             cachedStat = self.__db.fetchone()
             if cachedStat is not None:
-                if cachedStat[0] == st: return
+                if cachedStat[0] == st: return bid
                 self.__db.execute("DELETE FROM files WHERE bid=? AND arch=?",
                     (bid, self.__archiveKey))
+            self.__db.execute("DELETE FROM refs WHERE bid=? AND arch=?",
+                (bid, self.__archiveKey))
 
             # read audit trail
             if verbose: print("\tscan", fileName)
             audit = self.__archiver.getAudit(fileName)
             if audit is None:
                 print("\tCould not get audit for ", fileName)
-                return
+                return bid
 
             # import data
             artifact = audit.getArtifact()
@@ -149,6 +163,7 @@ class ArchiveScanner:
                 (bid, st, vrs, self.__archiveKey))
             self.__db.executemany("INSERT OR IGNORE INTO refs VALUES (?, ?, ?)",
                 [ (bid, r, self.__archiveKey) for r in audit.getReferencedBuildIds() ])
+            return bid
         except tarfile.TarError as e:
             raise BobError("Cannot read {}: {}".format(fileName, str(e)))
         except OSError as e:
